@@ -47,6 +47,44 @@ type progCase struct {
 	Trees  []namedTree `json:"trees"`
 	Steps  [][]string  `json:"steps"`
 	Note   string      `json:"note,omitempty"`
+	// Via: the value the applications on the root of the tree under test go THROUGH on the Go side
+	// (see entryPoint). The model links the scope directly; a wrapper must not change the outcome.
+	Via string `json:"via,omitempty"`
+}
+
+// linker is what every schema value offers for linking.
+type linker interface {
+	ApplyNamespace(objects map[string]*schema.ObjectSchema, namespace string)
+	ValidateReferences() error
+}
+
+var entryKinds = []string{"", "stepOutput", "typedScope", "property", "list", "map", "oneOf", "object"}
+
+// entryPoint wraps a constructed scope into one of the values that forward ApplyNamespace and
+// ValidateReferences to it: a step output, a typed scope, a property, a list, a map, a one-of
+// member, an inline object holding it. Namespaces applied through any of them must reach the scope
+// with the caller's table.
+func entryPoint(kind string, sc *schema.ScopeSchema) linker {
+	switch kind {
+	case "stepOutput":
+		return schema.NewStepOutputSchema(sc, nil, false)
+	case "typedScope":
+		return &schema.TypedScopeSchema[map[string]any]{ScopeSchema: *sc}
+	case "property":
+		return schema.NewPropertySchema(sc, nil, false, nil, nil, nil, nil, nil)
+	case "list":
+		return schema.NewListSchema(sc, nil, nil)
+	case "map":
+		return schema.NewMapSchema(schema.NewStringSchema(nil, nil, nil), sc, nil, nil)
+	case "oneOf":
+		return schema.NewOneOfStringSchema[any](map[string]schema.Object{"k": sc}, "_entry", false)
+	case "object":
+		return schema.NewObjectSchema("Entry", map[string]*schema.PropertySchema{
+			"e": schema.NewPropertySchema(sc, nil, false, nil, nil, nil, nil, nil),
+			"z": schema.NewPropertySchema(schema.NewIntSchema(nil, nil, nil), nil, false, nil, nil, nil, nil, nil),
+		})
+	}
+	return sc
 }
 
 type progObs struct {
@@ -131,6 +169,8 @@ func setObject(n *lnode, path string, id string, obj *lnode) {
 }
 
 type progBuilder struct {
+	// via: entry point kind for applications on the root of the tree under test
+	via string
 	// literal: scopes are written as plain &ScopeSchema{} values (nothing applies itself)
 	literal bool
 	objs    map[*schema.ObjectSchema]objAddr
@@ -211,6 +251,14 @@ func (b *progBuilder) table(from string) map[string]*schema.ObjectSchema {
 	return sc.Objects()
 }
 
+// entry: what applications on the root of a tree are called on.
+func (b *progBuilder) entry(pt *progTree, owner string) linker {
+	if sc, ok := pt.top.(*schema.ScopeSchema); ok && owner == "" && b.via != "" {
+		return entryPoint(b.via, sc)
+	}
+	return pt.top
+}
+
 func (b *progBuilder) tableMinus(from string, missing []string) map[string]*schema.ObjectSchema {
 	out := map[string]*schema.ObjectSchema{}
 	for id, o := range b.table(from) {
@@ -265,7 +313,7 @@ func (b *progBuilder) step(st []string) {
 		sc.ObjectsValue[st[3]] = no
 		setObject(pt.node, st[2], st[3], &obj)
 	case "applySub":
-		pt.top.ApplyNamespace(b.tableMinus(st[3], st[4:]), st[2])
+		b.entry(pt, st[1]).ApplyNamespace(b.tableMinus(st[3], st[4:]), st[2])
 	case "applyAtSub":
 		pt.scopes[st[2]].ApplyNamespace(b.tableMinus(st[4], st[5:]), st[3])
 	case "build":
@@ -277,13 +325,13 @@ func (b *progBuilder) step(st []string) {
 			sc := schema.NewScopeSchema(pt.pending[0], pt.pending[1:]...)
 			pt.scopes[""] = sc
 			pt.top = sc
-		} else if sc, ok := pt.top.(*schema.ScopeSchema); ok {
+		} else if sc, ok := pt.top.(*schema.ScopeSchema); ok && (st[1] != "" || b.via == "") {
 			sc.ApplySelf()
 		} else {
-			pt.top.ApplyNamespace(nil, schema.SelfNamespace)
+			b.entry(pt, st[1]).ApplyNamespace(nil, schema.SelfNamespace)
 		}
 	case "apply":
-		pt.top.ApplyNamespace(b.table(st[3]), st[2])
+		b.entry(pt, st[1]).ApplyNamespace(b.table(st[3]), st[2])
 	case "applyAt":
 		sc := pt.scopes[st[2]]
 		if st[3] == "" {
@@ -302,7 +350,7 @@ func runProg(c *progCase) (res progResult) {
 			res = progResult{R: "panic", Msg: fmt.Sprint(r)}
 		}
 	}()
-	b := &progBuilder{objs: map[*schema.ObjectSchema]objAddr{}, trees: map[string]*progTree{}}
+	b := &progBuilder{via: c.Via, objs: map[*schema.ObjectSchema]objAddr{}, trees: map[string]*progTree{}}
 	for _, t := range c.Trees {
 		b.trees[t.Name] = &progTree{node: copyNode(t.Tree), refs: map[string]*schema.RefSchema{}, scopes: map[string]*schema.ScopeSchema{}}
 	}
@@ -323,7 +371,7 @@ func runProg(c *progCase) (res progResult) {
 					all = false
 				}
 			}
-			if valid := pt.top.ValidateReferences() == nil; valid != all {
+			if valid := b.entry(pt, t.Name).ValidateReferences() == nil; valid != all {
 				inconsistent = fmt.Sprintf("after step %d %v: ValidateReferences of tree %q succeeds = %v, every reference linked to an object = %v", i, st, t.Name, valid, all)
 			}
 		}
@@ -332,7 +380,7 @@ func runProg(c *progCase) (res progResult) {
 	for _, t := range c.Trees {
 		pt := b.trees[t.Name]
 		lb := &linkBuilder{objs: b.objs, refs: pt.orderedRefs(t.Name)}
-		obs.Trees = append(obs.Trees, [3]any{t.Name, lb.observe(), pt.top.ValidateReferences() == nil})
+		obs.Trees = append(obs.Trees, [3]any{t.Name, lb.observe(), b.entry(pt, t.Name).ValidateReferences() == nil})
 	}
 	return progResult{R: "ok", V: obs, Inconsistent: inconsistent}
 }
@@ -829,6 +877,11 @@ func groupSched(s *sink, g *hx.Gen) {
 			note = "failing:" + note
 			s.stats["sched:with-failing-steps"]++
 		}
+		c.Via = entryKinds[(schedCursor+k)%len(entryKinds)]
+		if c.Via != "" {
+			note = "via " + c.Via + ":" + note
+			s.stats["sched:via:"+c.Via]++
+		}
 		c.Note = note
 		s.nextID++
 		c.ID = s.nextID
@@ -986,6 +1039,7 @@ func (b *nsBuilder) build(t *hx.Ty) schema.Type {
 
 // nsUniverse: descriptions of S, X, Y, YX and who binds which namespace name to which scope.
 type nsUniverse struct {
+	via   string    // entry point kind the namespaces are applied through (entryPoint)
 	bg    *nsBehGen // generator state for objects of the tree under test
 	trees map[string]*hx.Ty
 	bind  map[string]map[string]string // tree -> namespace -> tree
@@ -1354,7 +1408,12 @@ func groupNSBehave(s *sink, g *hx.Gen) {
 			embed = 1 + r.Intn(3)
 			cut = r.Intn(len(sched) + 1)
 		}
+		u.via = entryKinds[(nsCursor+k)%len(entryKinds)]
 		note := fmt.Sprintf("ns:%s:embed%d", strings.Join(sched, ","), embed)
+		if u.via != "" {
+			note += ":via " + u.via
+			s.stats["nsbehave:via:"+u.via]++
+		}
 		var w *nsWorld
 		built := hx.Guard(func() hx.Result {
 			if embed == 0 {
@@ -1597,10 +1656,11 @@ func (u *nsUniverse) buildWorldEmbedded(sched []string, embed, cut int) *nsWorld
 	w.x2 = b.build(u.trees["X2"]).(*schema.ScopeSchema)
 	w.x2.ApplyNamespace(w.yx.Objects(), "Y")
 	w.s = b.build(u.trees[""]).(*schema.ScopeSchema)
-	apply := func(t *schema.ScopeSchema, sy string) {
+	apply := func(sc *schema.ScopeSchema, sy string) {
+		t := entryPoint(u.via, sc)
 		switch sy {
 		case "self":
-			t.ApplySelf()
+			t.ApplyNamespace(nil, schema.SelfNamespace)
 		case "X":
 			t.ApplyNamespace(w.x.Objects(), "X")
 		case "X2":
